@@ -363,7 +363,9 @@ func execute(e *Engine, prop, tier string, seed uint64, t *Tape, opt map[string]
 	} else {
 		body()
 	}
-	if rep := raceLogSince(raceBefore); rep != "" && res.Viol == nil && res.HarnessErr == "" {
+	// (a race report takes precedence over another violation of the same run: the detector reports a pair of stacks
+	// once per process, it would be lost for good)
+	if rep := raceLogSince(raceBefore); rep != "" && res.HarnessErr == "" {
 		// several races may be reported in one run, in an order that varies: all signatures are kept
 		seen := map[string]bool{}
 		first := ""
